@@ -17,7 +17,9 @@ MISUSE = ['foreign_var_constraint', 'foreign_var_mixed_expr', 'foreign_var_objec
           'foreign_concat_rev', 'foreign_rstack_rev', 'foreign_cstack_rev', 'foreign_vec_rev', 'foreign_concat_expr_rev', 'foreign_rvar_concat_rev',
           'foreign_var_plus_convex', 'foreign_var_plus_convex_rev', 'foreign_convex_of_var', 'foreign_convex_bound_by_var', 'foreign_convex_objective',
           'foreign_piecewise_piece', 'foreign_piecewise_objective', 'foreign_expected_piecewise', 'foreign_scaled_convex_plus_var',
-          'objective_redefined_after_zero', 'objective_redefined_after_constant']
+          'objective_redefined_after_zero', 'objective_redefined_after_constant',
+          'foreign_expcone_x', 'foreign_expcone_y', 'foreign_expcone_z', 'foreign_rsocone_x', 'foreign_rsocone_y',
+          'foreign_pexp_scale', 'foreign_quad_plus_var', 'foreign_gmean_bound', 'foreign_exp_bound']
 
 
 @st.composite
@@ -107,7 +109,11 @@ def readable(M):
     """after solve(): can a result be read?"""
     m = M['m']
     with quiet():
-        m.solve(display=False)
+        if M.get('conic'):
+            from rsome import eco_solver
+            m.solve(eco_solver, display=False)
+        else:
+            m.solve(display=False)
     v = m.get()
     M['x'].get()
     return v
@@ -215,6 +221,17 @@ def misuse(case):
     elif w in ('foreign_rvar_concat', 'foreign_rvar_concat_rev'):
         e = rso.concat((zB, zA)) if w.endswith('_rev') else rso.concat((zA, zB))
         mA.st(xA.sum() + e.sum() <= 100)
+    elif w.startswith(('foreign_expcone', 'foreign_rsocone', 'foreign_kldiv', 'foreign_pexp', 'foreign_quad', 'foreign_gmean', 'foreign_exp_')):
+        # multi-argument atoms / cone constraints with one argument taken from the other model
+        a0, a1 = xA[0], (xA[n - 1] if n > 1 else xA[0])
+        b0 = xB[0]
+        con = {'foreign_expcone_x': lambda: rso.expcone(a0 + 3, b0, a1 + 1), 'foreign_expcone_y': lambda: rso.expcone(b0 + 3, a0, a1 + 1),
+               'foreign_expcone_z': lambda: rso.expcone(a0 + 3, a1, b0 + 1), 'foreign_rsocone_x': lambda: rso.rsocone(xB, a0 + 2, a1 + 2),
+               'foreign_rsocone_y': lambda: rso.rsocone(xA, b0 + 2, a1 + 2),
+               'foreign_pexp_scale': lambda: rso.pexp(a0, b0 + 1) <= 5, 'foreign_quad_plus_var': lambda: rso.quad(xA, np.eye(n)) + xB.sum() <= 5,
+               'foreign_gmean_bound': lambda: rso.gmean(xA + 1) >= b0, 'foreign_exp_bound': lambda: rso.exp(a0) <= b0 + 3}[w]()
+        mA.st(con)
+        A['conic'] = True
     elif w == 'foreign_var_plus_convex':
         mA.st(abs(xA) + xB <= 1)
     elif w == 'foreign_var_plus_convex_rev':
@@ -295,7 +312,7 @@ class C17(Prop):
     rule = ('(isolation) two models drawn independently from the deterministic (C06), robust (C01) and dro (C03) generators are built '
             'and solved in one process in six interleavings (A B sA sB / A B sB sA / A sA B sB sA / B A sA sB sA / ... with repeated '
             'solves of A after B was built or solved): every optimum must equal that of the same model built and solved alone. '
-            '(misuse) a catalogue of 45 misuse patterns x the four ro/dro combinations of the two models x use before/after the other '
+            '(misuse) a catalogue of 54 misuse patterns x the four ro/dro combinations of the two models x use before/after the other '
             'model was solved: foreign variable / LDR / random variable / expression / constraint / uncertainty set / ambiguity set / '
             'support, expectation or probability constraint in every API position that accepts one, adapt() on a foreign random variable (first call, '
             'after a legitimate call, entry-wise), concat/rstack/cstack/vec over two models (own operand first or last), convex atoms / piecewise maxima / E(piecewise) mixing a foreign variable in, objective redefinition, '
